@@ -272,6 +272,20 @@ func genC13() {
 		}
 		g.def("build_image_steps", "list string", "["+c13JoinSemi(steps)+"]", "calls of buildImage in source order at "+g.pos(fd))
 	}
+	// fix 4aa2cd2: GroupEntry.Parse leaves Members nil for an empty member field (guard parts[3] != "")
+	if fd := findFunc(gr, "GroupEntry", "Parse"); fd != nil {
+		guarded := false
+		ast.Inspect(fd, func(n ast.Node) bool {
+			be, ok := n.(*ast.BinaryExpr)
+			if ok && be.Op == token.NEQ && exprText(be.X) == "parts[3]" {
+				if s, ok := strLit(be.Y); ok && s == "" {
+					guarded = true
+				}
+			}
+			return true
+		})
+		g.def("group_empty_members_nil", "bool", fmt.Sprint(guarded), "GroupEntry.Parse: an empty member field gives no members")
+	}
 	// tarfs: does truncating a file detach it from the tar entry that backs it?
 	// (finding C13-F4 / fixes/C13-F4.patch: newMemFile's O_TRUNC branch then sets the entry's header.Size to 0)
 	const tfs = "pkg/tarfs/fs.go"
